@@ -13,7 +13,11 @@ Definition named_helpers : list string :=
   ["boltz.IsReferenceExistsError"; "boltz.IsUniqueIndexDuplicateError"; "boltz.IsErrNotFoundErr";
    "zitiql.Parse"; "zitiql.ParseZqlString"; "zitiql.ParseZqlDatetime"; "ast.Parse";
    "boltz.BaseStore.GetSymbol"; "boltz.BaseStore.GetSymbolType"; "boltz.BaseStore.IsSet";
-   "boltz.BaseStore.QueryIds"].
+   "boltz.BaseStore.QueryIds";
+   (* lookups through objects registered once on a store *)
+   "boltz.setIndex.Read"; "boltz.setIndex.OpenValueCursor"; "boltz.uniqueIndex.Read";
+   "boltz.linkCollectionImpl.GetLinks"; "boltz.BaseStore.GetRelatedEntitiesIdList";
+   "boltz.ExternalSymbol.Eval"; "boltz.entitySymbol.Eval"].
 
 Lemma generated_table_names_helpers : forallb (has_helper table) named_helpers = true.
 Proof. vm_compute. reflexivity. Qed.
